@@ -120,9 +120,13 @@ class Ctx:
                 if sample and len(self.samples) < 6 and (not self.samples or len(self.distinct) % 53 == 0):
                     self.samples.append(case)
 
-    def ratio(self, err, tol):
+    def ratio(self, err, tol, label=None):
         if tol > 0:
-            self.worst_ratio = max(self.worst_ratio, float(err) / float(tol))
+            r = float(err) / float(tol)
+            self.worst_ratio = max(self.worst_ratio, r)
+            if label is not None:
+                d = self.extra.setdefault('worst_ratio_by_clause', {})
+                d[label] = max(d.get(label, 0.0), r)
 
     def fail(self, clause, inp, impl=None, model=None, note=''):
         self.failures.append(dict(clause=clause, input=inp, impl=impl, model=model, note=note))
